@@ -16,10 +16,10 @@ RULE = ('Workload of C04 (references with several contigs, two per run of 80 kb 
         'reference order.  The VCF run uses --threads 1..7 independently of the alignment run, and a quarter of the VCFs is written with -o over an existing longer file.  Cross-check: the alignment itself against the C04 model.  One case in twelve has ambiguity codes in the reference (REF must then read N; no model cross-check there).  Non-trivial: at least one record '
         'expected; distinct = distinct (k, mode, flags, reference, samples).')
 ASSUMPTIONS = ['the oracle is the real `ska map -f aln` output of the same run; C05 stays meaningful if C04 fails',
-               'contig names are c<i> ([A-Za-z0-9_.] only)']
+               'contig names are c<i> or taken from a pool of realistic names (chr10, NC_000913.3, contig-5|x, ...), in non-sorted order']
 REQUIRED = {t: ['records_checked', 'multiallelic_records', 'records_on_later_contigs', 'ref_N_records',
                 'lowercase_ref_cases', 'missing_genotypes', 'N_genotypes', 'references_with_ambiguity_codes',
-                'vcf_written_over_existing_longer_file', 'vcf_threads_not_dividing_reference_length', 'records_in_last_columns_of_reference', 'references_over_262144_bases'] for t in ('quick', 'thorough')}
+                'vcf_written_over_existing_longer_file', 'vcf_threads_not_dividing_reference_length', 'records_in_last_columns_of_reference', 'references_over_262144_bases', 'unusual_contig_names'] for t in ('quick', 'thorough')}
 
 
 def builds(tier):
